@@ -156,6 +156,33 @@ func workerMain() {
 
 var workerKinds = map[string]func(json.RawMessage) map[string]any{}
 
+// parseV1 parses in the worker process.
+func parseV1(src string) map[string]any {
+	if inWorker {
+		return parseDirect(src)
+	}
+	raw, _ := json.Marshal(hx(src)) // hex: JSON would replace invalid UTF-8
+	m, death := callWorker(workerReq{Kind: "parse", Raw: raw})
+	if death == "" {
+		return m
+	}
+	r := map[string]any{"parse_death": death}
+	if m != nil {
+		r["stderr"] = m["stderr"]
+	}
+	return r
+}
+
+func init() {
+	workerKinds["parse"] = func(raw json.RawMessage) map[string]any {
+		var hsrc string
+		json.Unmarshal(raw, &hsrc)
+		r := parseDirect(unhx(hsrc))
+		r["stderr_dump"] = false
+		return r
+	}
+}
+
 // runV1 runs the case in the worker process.
 func runV1(rc runCase) map[string]any {
 	if inWorker {
